@@ -107,7 +107,7 @@ pub fn step_once(real: &mut Real, m0: &M) -> Outcome {
     let r = guarded(|| {
         let mut st = build(m0);
         // deterministic environment: node ids start at a known value, EXEC.CMD's pause is virtual
-        pushr::push::graph::verif_set_node_counter(crate::refmodel::NEXT_NODE_ID);
+        pushr::push::graph::verif_set_node_counter(crate::refmodel::next_node_id());
         pushr::push::verif::install_clock(0);
         // RNG answers come from the default script (a fixed Weyl sequence): every execution is replayable
         pushr::push::verif::install_script(vec![], 100_000);
@@ -420,6 +420,8 @@ impl Ctx {
             ("fixpoint", match self.fixpoint { Some(b) => J::Bool(b), None => J::Null }),
             ("outcomes", J::Arr(self.outcomes.iter().take(200000).map(|h| J::s(format!("{:x}", h))).collect())),
             ("nontrivial", J::Arr(self.nontrivial.iter().take(200000).map(|h| J::s(format!("{:x}", h))).collect())),
+            ("outcomes_n", J::Int(self.outcomes.len() as i64)),
+            ("nontrivial_n", J::Int(self.nontrivial.len() as i64)),
             ("samples", J::Arr(self.samples.iter().map(|s| J::s(s.clone())).collect())),
             (
                 "known",
